@@ -381,6 +381,8 @@ def gen_cases(rng, tier):
             for k, ti in enumerate(order):
                 ms = [{"name": "get", "recv": "ref", "args": [("u32", "x")], "ret": "u32"},
                       {"name": ["put", "run", "dup", "eat"][k], "recv": ["mut", "ref", "mut", "own"][k], "args": [("tup", "t"), ("u8", "y")] if k % 2 == 0 else [("pair", "val")], "ret": ["void", "tup", "u32", "u32"][k]}]
+                if k < 2:      # a container-returning entry (like clone) in a trait that is NOT the last one of its group
+                    ms.append({"name": ["scan", "size"][k], "recv": "ref", "args": [], "ret": "self"})
                 traits.append({"name": names[ti], "methods": ms, "rettmp": False})
             fixed.append({"traits": traits, "objects": [{"trait": 1, "inner": "Box", "ctx": "Arc"}],
                           "groups": [{"name": "Grp", "traits": [0, 1, 2, 3], "variants": [["Box", "Arc"]]}, {"name": "Feat", "traits": [1, 3], "variants": [["Mut", "None"]]}],
